@@ -186,7 +186,7 @@ theorem query_spec (s : State) (k : String) : query s k = lookup s k := rfl
 
 /-- `Log.Log`: both refusal cases and the expiry rule. -/
 theorem log_spec (now retention : Int) (s : State) (key : String) (f r : List Nat) (d : String)
-    (expiry : Int) (hret : 0 ≤ retention) (hexp : 0 ≤ expiry) :
+    (expiry : Int) (hret : 0 ≤ retention) (_hexp : 0 ≤ expiry) :
     let res := log now retention s key f r d expiry
     let e : Entry := { key, ts := now, exp := logExpiry now retention expiry, firing := f, resolved := r, data := d }
     (∀ k, k ≠ key → lookup res.1 k = lookup s k) ∧
